@@ -95,12 +95,20 @@ class MTSPEnv(RL4COEnvBase):
         # If done is True, then we make the depot available again, so that it will be selected as the next node with prob 1
         available[..., 0] = torch.logical_or(done, available[..., 0])
 
+        # Instances that were already done at the previous step are only being padded (moved to the depot)
+        # while other instances of the batch finish: their return leg has already been counted
+        prev_done = td.get("done", torch.zeros_like(done)).reshape(done.shape)
+
         # Update the current length
-        current_length = td["current_length"] + get_distance(cur_loc, prev_loc)
+        current_length = td["current_length"] + get_distance(cur_loc, prev_loc) * (
+            ~prev_done
+        )
 
         # If done, we add the distance from the current_node to the depot as well
         current_length = torch.where(
-            done, current_length + get_distance(cur_loc, depot_loc), current_length
+            done & ~prev_done,
+            current_length + get_distance(cur_loc, depot_loc),
+            current_length,
         )
 
         # We update the max_subtour_length and reset the current_length
